@@ -3,21 +3,155 @@ package main
 import (
 	"go/ast"
 	"go/token"
+	"strconv"
 	"strings"
 )
 
 // Index sites and the conditions that keep them in range (C15).
 //
 // For every index expression x[e] with an integer-like index (a literal, or arithmetic over loop counters) in
-// config/load.go and config/flagset.go the extractor looks for the dominating guard, innermost first:
+// the functions reachable from config.Load and FlagSet.ParseFlags (whatever they are called and whichever file
+// they live in) the extractor looks for the dominating guard, innermost first:
 //   exit-if C     an earlier `if C { …; return/continue/break/panic }` in an enclosing statement list
-//   after-case C  an earlier clause `case C: …; return` of the enclosing tagless switch
+//   after-case C  an earlier clause `case C: …; return` of the enclosing tagless switch, or (the same thing
+//                 after switch → if-chain normalisation) an earlier branch `if C { …; return } else …`
 //   inside-if C   the site is in the body of `if C`
 //   loop-while C  the site is in the body of `for …; C; …`
 // where C mentions len(x) or compares x with "".  A site without such a condition is reported with guard "none".
-// The (function, site, guard) list is pinned by an obligation, so weakening or removing a guard breaks it.
+// Variables are printed by ROLE, not by spelling: receiver `recv`, i-th parameter `p<i>`, i-th named result
+// `r<i>`, a local assigned from a call `@<callee>` (`@<callee>.<k>` for the k-th of several results), a loop
+// counter `@i`, range variables `@k`/`@v`, function-literal parameters `@a<i>`; any other local `@local`.
+// The set of (site, guard) pairs — without function names — is pinned by an obligation, so weakening or
+// removing a guard breaks it while renaming, extracting or inlining the code around it does not.
 
 type c15Guard struct{ fn, site, guard string }
+
+// c15Roles builds the variable → role map of one function.  Variables are identified by their declaration
+// (ast.Object), not by their spelling, so a local that shadows a parameter is a different variable.
+func c15Roles(x *X, fd *ast.FuncDecl) map[*ast.Object]string {
+	ren := map[*ast.Object]string{}
+	set := func(id *ast.Ident, role string) {
+		if id != nil && id.Name != "_" && id.Obj != nil {
+			if _, done := ren[id.Obj]; !done {
+				ren[id.Obj] = role
+			}
+		}
+	}
+	if fd.Recv != nil {
+		for _, f := range fd.Recv.List {
+			for _, n := range f.Names {
+				set(n, "recv")
+			}
+		}
+	}
+	if fd.Type.Params != nil {
+		i := 0
+		for _, p := range fd.Type.Params.List {
+			for _, n := range p.Names {
+				set(n, "p"+c15itoa(i))
+				i++
+			}
+		}
+	}
+	if fd.Type.Results != nil {
+		i := 0
+		for _, r := range fd.Type.Results.List {
+			for _, n := range r.Names {
+				set(n, "r"+c15itoa(i))
+				i++
+			}
+		}
+	}
+	ast.Inspect(fd.Body, func(n ast.Node) bool {
+		switch v := n.(type) {
+		case *ast.ForStmt:
+			if as, ok := v.Init.(*ast.AssignStmt); ok && as.Tok == token.DEFINE {
+				for _, l := range as.Lhs {
+					if id, ok := l.(*ast.Ident); ok {
+						set(id, "@i")
+					}
+				}
+			}
+		case *ast.RangeStmt:
+			if id, ok := v.Key.(*ast.Ident); ok && v.Tok == token.DEFINE {
+				set(id, "@k")
+			}
+			if id, ok := v.Value.(*ast.Ident); ok && v.Tok == token.DEFINE {
+				set(id, "@v")
+			}
+		case *ast.FuncLit:
+			i := 0
+			if v.Type.Params != nil {
+				for _, p := range v.Type.Params.List {
+					for _, nm := range p.Names {
+						set(nm, "@a"+c15itoa(i))
+						i++
+					}
+				}
+			}
+		case *ast.AssignStmt:
+			if v.Tok == token.DEFINE || v.Tok == token.ASSIGN {
+				if len(v.Rhs) == 1 {
+					if c, ok := v.Rhs[0].(*ast.CallExpr); ok {
+						callee := x.src(c.Fun)
+						if se, ok := c.Fun.(*ast.SelectorExpr); ok {
+							if id, ok := se.X.(*ast.Ident); ok && id.Obj != nil {
+								if role, ok := ren[id.Obj]; ok {
+									callee = role + "." + se.Sel.Name
+								}
+							}
+						}
+						for k, l := range v.Lhs {
+							if id, ok := l.(*ast.Ident); ok {
+								if len(v.Lhs) == 1 {
+									set(id, "@"+callee)
+								} else {
+									set(id, "@"+callee+"."+c15itoa(k))
+								}
+							}
+						}
+						return true
+					}
+				}
+				if v.Tok == token.DEFINE {
+					for _, l := range v.Lhs {
+						if id, ok := l.(*ast.Ident); ok {
+							set(id, "@local")
+						}
+					}
+				}
+			}
+		case *ast.ValueSpec:
+			for _, id := range v.Names {
+				set(id, "@local")
+			}
+		}
+		return true
+	})
+	return ren
+}
+
+// c15Print renders a node with every variable replaced by its role.
+func c15Print(x *X, n ast.Node, ren map[*ast.Object]string) string {
+	saved := map[*ast.Ident]string{}
+	ast.Inspect(n, func(m ast.Node) bool {
+		if id, ok := m.(*ast.Ident); ok && id.Obj != nil {
+			if role, ok := ren[id.Obj]; ok {
+				saved[id] = id.Name
+				id.Name = role
+			}
+		}
+		return true
+	})
+	out := x.src(n)
+	for id, name := range saved {
+		id.Name = name
+	}
+	return out
+}
+
+func c15itoa(i int) string { return strconv.Itoa(i) }
+
 
 func c15IntLike(x *X, e ast.Expr, counters map[string]bool) bool {
 	switch v := e.(type) {
@@ -64,6 +198,8 @@ func c15Mentions(x *X, cond ast.Expr, base string) bool {
 
 func c15IndexGuards(x *X, fd *ast.FuncDecl, fnName string) []c15Guard {
 	var out []c15Guard
+	ren := c15Roles(x, fd)
+	pr := func(n ast.Node) string { return c15Print(x, n, ren) }
 	counters := map[string]bool{}
 	ast.Inspect(fd.Body, func(n ast.Node) bool {
 		if f, ok := n.(*ast.ForStmt); ok {
@@ -96,12 +232,12 @@ func c15IndexGuards(x *X, fd *ast.FuncDecl, fnName string) []c15Guard {
 			child := stack[k+1]
 			switch anc := stack[k].(type) {
 			case *ast.BlockStmt:
-				if g := c15Earlier(x, anc.List, child, base); g != "" {
+				if g := c15Earlier(x, pr, anc.List, child, base); g != "" {
 					guard = g
 					break search
 				}
 			case *ast.CaseClause:
-				if g := c15Earlier(x, anc.Body, child, base); g != "" {
+				if g := c15Earlier(x, pr, anc.Body, child, base); g != "" {
 					guard = g
 					break search
 				}
@@ -115,7 +251,7 @@ func c15IndexGuards(x *X, fd *ast.FuncDecl, fnName string) []c15Guard {
 							}
 							for _, e := range cc.List {
 								if c15Mentions(x, e, base) && len(cc.Body) > 0 && c15ExitStmt(x, cc.Body[len(cc.Body)-1]) {
-									guard = "after-case " + x.src(e)
+									guard = "after-case " + pr(e)
 									break search
 								}
 							}
@@ -124,17 +260,22 @@ func c15IndexGuards(x *X, fd *ast.FuncDecl, fnName string) []c15Guard {
 				}
 			case *ast.IfStmt:
 				if child == ast.Node(anc.Body) && c15Mentions(x, anc.Cond, base) {
-					guard = "inside-if " + x.src(anc.Cond)
+					guard = "inside-if " + pr(anc.Cond)
+					break search
+				}
+				// an earlier branch of the same if / else-if chain that exits (a normalised `case C: return`)
+				if anc.Else != nil && child == ast.Node(anc.Else) && c15Mentions(x, anc.Cond, base) && c15Exits(x, anc.Body) {
+					guard = "after-case " + pr(anc.Cond)
 					break search
 				}
 			case *ast.ForStmt:
 				if child == ast.Node(anc.Body) && c15Mentions(x, anc.Cond, base) {
-					guard = "loop-while " + x.src(anc.Cond)
+					guard = "loop-while " + pr(anc.Cond)
 					break search
 				}
 			}
 		}
-		out = append(out, c15Guard{fnName, x.src(ie), guard})
+		out = append(out, c15Guard{fnName, pr(ie), guard})
 		return true
 	})
 	return out
@@ -142,7 +283,7 @@ func c15IndexGuards(x *X, fd *ast.FuncDecl, fnName string) []c15Guard {
 
 // c15Earlier looks, among the statements before the one containing the site, for the nearest early exit whose
 // condition mentions the base.
-func c15Earlier(x *X, list []ast.Stmt, child ast.Node, base string) string {
+func c15Earlier(x *X, pr func(ast.Node) string, list []ast.Stmt, child ast.Node, base string) string {
 	idx := -1
 	for i, s := range list {
 		if ast.Node(s) == child {
@@ -151,36 +292,38 @@ func c15Earlier(x *X, list []ast.Stmt, child ast.Node, base string) string {
 	}
 	for i := idx - 1; i >= 0; i-- {
 		if is, ok := list[i].(*ast.IfStmt); ok && is.Else == nil && c15Mentions(x, is.Cond, base) && c15Exits(x, is.Body) {
-			return "exit-if " + x.src(is.Cond)
+			return "exit-if " + pr(is.Cond)
 		}
 	}
 	return ""
 }
 
-func c15EmitIndexGuards(x *X) {
+func c15EmitIndexGuards(x *X, fds []*ast.FuncDecl) {
 	var all []c15Guard
-	for _, f := range x.files("config") {
-		name := x.fset.Position(f.Pos()).Filename
-		if !strings.HasSuffix(name, "/load.go") && !strings.HasSuffix(name, "/flagset.go") {
+	done := map[*ast.FuncDecl]bool{}
+	have := map[string]bool{}
+	for _, fd := range fds {
+		if fd == nil || fd.Body == nil || done[fd] {
 			continue
 		}
-		for _, d := range f.Decls {
-			if fd, ok := d.(*ast.FuncDecl); ok && fd.Body != nil {
-				fn := fd.Name.Name
-				all = append(all, c15IndexGuards(x, fd, fn)...)
+		done[fd] = true
+		for _, g := range c15IndexGuards(x, fd, "") {
+			key := g.site + "\x00" + g.guard
+			if !have[key] {
+				have[key] = true
+				all = append(all, g)
 			}
 		}
 	}
 	if len(all) == 0 {
-		x.fail("config: no index sites found in load.go/flagset.go")
+		x.fail("config: no index sites found on the path of Load / ParseFlags")
 	}
-	// stable order: by function then site then guard (positions differ between harmless edits)
 	sortGuards(all)
 	var rows []string
 	for _, g := range all {
-		rows = append(rows, "("+leanStr(g.fn)+", "+leanStr(g.site)+", "+leanStr(g.guard)+")")
+		rows = append(rows, "("+leanStr(g.site)+", "+leanStr(g.guard)+")")
 	}
-	x.defRaw("/-- (function, index site, dominating guard) for every integer-indexed expression in config/load.go and\nconfig/flagset.go -/\ndef indexGuards : List (String × String × String) := [\n  " + strings.Join(rows, ",\n  ") + "]")
+	x.defRaw("/-- (index site, dominating guard), variables printed by role, for every integer-indexed expression in the\nfunctions reachable from config.Load and FlagSet.ParseFlags (set, sorted) -/\ndef indexGuards : List (String × String) := [\n  " + strings.Join(rows, ",\n  ") + "]")
 }
 
 func sortGuards(gs []c15Guard) {
